@@ -28,7 +28,7 @@ func (v mapSliceValue) Interface() any { return v.slice }
 func (v mapSliceValue) Contains(elem Value) bool {
 	e := elem.Interface()
 	for _, item := range v.slice {
-		if e == item.Key {
+		if safeEqual(e, item.Key) {
 			return true
 		}
 	}
@@ -38,7 +38,7 @@ func (v mapSliceValue) Contains(elem Value) bool {
 func (v mapSliceValue) IndexValue(index Value) Value {
 	e := index.Interface()
 	for _, item := range v.slice {
-		if e == item.Key {
+		if safeEqual(e, item.Key) {
 			return ValueOf(item.Value)
 		}
 	}
